@@ -46,6 +46,8 @@ def cases(tier):
         for zy in (0, 1, 2):
             cs.append(dict(kind='layout', mods=2, max_iter=1, zone=[zx, zy], twice=False))
     cs.append(dict(kind='layout', mods=2, max_iter=1, zone=[1, 1], twice=True))
+    cs.append(dict(kind='layout', mods=2, max_iter=1, zone=[1, 1], twice=False, square=True))
+    cs.append(dict(kind='layout', mods=2, max_iter=0, zone=None, twice=False, square=True))
     # starts far outside the die on a wide and on a narrow die: whatever the forces are, one step cannot bring the module back, so the
     # result is decided by the clamp alone (counterexamples of these cases replay concretely although the forces are abstracted)
     for far in ('above', 'below', 'left', 'right'):
@@ -78,7 +80,8 @@ def build(I, case, tag=''):
     fx, fy = I.real('fx', 0.5, 99.5), 2.5
     I.assume(And(Or(Eq(fx + 0.5, W), fx + 0.5 + 0.01 <= W), Or(Eq(fx, 0.5), fx >= 0.51)))  # separation margin (see C01)
     mods = {'FX': {'fixed': True, 'rectangles': [[fx, fy, 1.0, 1.0]]},
-            'S0': {'area': I.real('a0', 0.01, 50), 'center': [I.real('c0x', -50, 150), I.real('c0y', -50, 150)]}}
+            'S0': {'area': (I.real('a0', 0.01, 50) if not case.get('square') else 2.25),
+                   'center': [I.real('c0x', -50, 150), I.real('c0y', -50, 150)]}}
     nets = [['FX', 'S0', I.real('w0', 0.01, 10)]]
     if case['mods'] == 3:
         # third module: a fixed terminal pin on a 3-pin net
@@ -134,6 +137,10 @@ def body(I, case):
 def body_layout(I, case):
     die, net, W, H, (fx, fy) = build(I, case)
     kappa = I.real('kappa', 0.1, 2)
+    if case.get('square'):
+        # the soft module got its default square (as Netlist.create_squares does before an allocation): the square is one of the
+        # rectangles that relocation must not touch
+        net.get_module('S0').create_square()
     before = snapshot(net)
     if I.mode == 'symbolic':
         symx.UF_NONLINEAR = True
